@@ -112,6 +112,10 @@ func fmtParams(m map[string]int) string {
 
 // run executes the harness natively on a trace; returns combined output and whether the test passed.
 func (r *Replayer) run(spec RunSpec, trace []int64, known map[string]bool, race bool, obsFile string, timeout time.Duration) (string, bool, error) {
+	return r.runSlow(spec, trace, known, race, obsFile, timeout, false)
+}
+
+func (r *Replayer) runSlow(spec RunSpec, trace []int64, known map[string]bool, race bool, obsFile string, timeout time.Duration, slow bool) (string, bool, error) {
 	bin, err := r.build(spec.Pkg, race)
 	if err != nil {
 		return "", false, err
@@ -120,6 +124,10 @@ func (r *Replayer) run(spec RunSpec, trace []int64, known map[string]bool, race 
 	ctx, cancel := context.WithTimeout(context.Background(), timeout+5*time.Second)
 	defer cancel()
 	cmd := exec.CommandContext(ctx, bin, "-test.run", "^TestVerifReplay$", "-test.timeout", timeout.String(), "-test.count=1")
+	if !race {
+		// a replayed non-terminating path may also grow without bound: cap the address space (not under -race: its shadow memory needs more)
+		cmd = exec.CommandContext(ctx, "sh", "-c", `ulimit -v 8000000; exec "$0" "$@"`, bin, "-test.run", "^TestVerifReplay$", "-test.timeout", timeout.String(), "-test.count=1")
+	}
 	rel := strings.TrimPrefix(strings.TrimPrefix(spec.Pkg, "github.com/go-kid/ioc"), "/")
 	cmd.Dir = filepath.Join(r.w.repo, rel)
 	var ks []string
@@ -128,6 +136,9 @@ func (r *Replayer) run(spec RunSpec, trace []int64, known map[string]bool, race 
 	}
 	cmd.Env = append(os.Environ(), "VERIF_TRACE="+fmtTrace(trace), "VERIF_ENTRY="+spec.Entry, "VERIF_PARAMS="+fmtParams(spec.Params),
 		"VERIF_KNOWN="+strings.Join(ks, ","), "VERIF_OBS="+obsFile)
+	if slow {
+		cmd.Env = append(cmd.Env, "VERIF_SLOW=1")
+	}
 	var buf bytes.Buffer
 	cmd.Stdout, cmd.Stderr = &buf, &buf
 	err = cmd.Run()
@@ -147,7 +158,7 @@ func (r *Replayer) reproduces(spec RunSpec, v Violation, known map[string]bool) 
 	}
 	var out string
 	for a := 0; a < attempts; a++ {
-		o, passed, err := r.run(spec, v.Trace, known, v.Kind == "race", "", timeout)
+		o, passed, err := r.runSlow(spec, v.Trace, known, v.Kind == "race", "", timeout, v.Slow)
 		if err != nil {
 			return false, err.Error()
 		}
@@ -166,7 +177,8 @@ func (r *Replayer) matches(v Violation, out string) bool {
 	case "panic":
 		return strings.Contains(out, "panic:") && !strings.Contains(out, "VERIF-ASSERT-FAILED") && !strings.Contains(out, "VERIF-TRACE-EXHAUSTED") && !strings.Contains(out, "test timed out")
 	case "budget":
-		return strings.Contains(out, "test timed out") || strings.Contains(out, "stack overflow") || strings.Contains(out, "goroutine stack exceeds")
+		return strings.Contains(out, "test timed out") || strings.Contains(out, "stack overflow") || strings.Contains(out, "goroutine stack exceeds") ||
+			strings.Contains(out, "out of memory") || strings.Contains(out, "cannot allocate memory")
 	case "race":
 		return strings.Contains(out, "DATA RACE")
 	case "deadlock":
